@@ -46,7 +46,12 @@ func a(i int) string { return fmt.Sprintf("a%d", i) }
 
 func (g *cgen) val() string { return fmt.Sprint(g.r.Intn(8)) }
 
-func (g *cgen) idx() string { return fmt.Sprint(g.r.Intn(9) - 4) }
+func (g *cgen) idx() string {
+	if g.r.Chance(1, 12) {
+		return fmt.Sprint([]int{7, 8, 15, 16, 17, 31, 32, 63, 64, 127, 128, 255, 256, -8, -16, -17, -256, -257}[g.r.Intn(18)])
+	}
+	return fmt.Sprint(g.r.Intn(9) - 4)
+}
 
 func (g *cgen) optIdx() string {
 	if g.r.Chance(1, 3) {
@@ -99,7 +104,16 @@ func GenCont(r *simrt.Rand, excl map[string]bool) *ContProg {
 			p.Init = append(p.Init, a(j)) // alias of an earlier one
 		case x < 7:
 			g.typ[i] = "list"
-			p.Init = append(p.Init, g.intList())
+			if r.Chance(1, 10) {
+				// sizes around the usual growth / small-buffer thresholds
+				n := []int{7, 8, 9, 15, 16, 17, 31, 32, 33, 64, 65}[r.Intn(11)]
+				if r.Chance(1, 6) {
+					n = []int{127, 128, 129, 255, 256, 257}[r.Intn(6)]
+				}
+				p.Init = append(p.Init, fmt.Sprintf("[_i %% 7 for _i in range(%d)]", n))
+			} else {
+				p.Init = append(p.Init, g.intList())
+			}
 		case x < 9:
 			g.typ[i] = "dict"
 			n := r.Intn(3)
